@@ -2,13 +2,14 @@ package main
 
 import "verifharness/rp"
 
-// Binding self-test: named deviations applied to the bytes a real writer produced. Each of them must make
-// Trace_RtmpWriter reject the trace; a doctored trace that is accepted means the check binds nothing.
-// The positions come from tokenising the undoctored (conformant) bytes.
-func doctor(s session, wire []byte) []byte {
+// Binding self-test: named deviations applied to conformant bytes (written by the specification's own sender,
+// so the self-test does not depend on the library under test). Each of them must make Trace_RtmpWriter reject
+// the trace; a doctored trace that is accepted means the check binds nothing.
+// The positions come from tokenising the undoctored bytes. ok = false: the wire offers no chunk to apply it to.
+func doctor(what, name string, wire []byte) (out []byte, ok bool) {
 	toks, jk := tokenizeAll(wire)
 	if jk != nil {
-		rp.Bug("doctor %s: session %s is not clean before doctoring: %+v", s.Doctor, s.Name, *jk)
+		rp.Bug("doctor %s: session %s is not clean before doctoring: %+v", what, name, *jk)
 	}
 	cut := func(from, n int) []byte {
 		o := append([]byte(nil), wire[:from]...)
@@ -19,35 +20,35 @@ func doctor(s session, wire []byte) []byte {
 		o = append(o, b...)
 		return append(o, wire[at:]...)
 	}
-	switch s.Doctor {
+	switch what {
 	case "ext-timestamp-dropped":
 		// a chunk announces an extended timestamp (field 0xFFFFFF) and does not carry it
 		for _, t := range toks {
-			if t.Ext >= 0 && t.Fmt == 0 {
-				return cut(t.At+t.Hl-4, 4)
+			if t.Ext >= 0 && t.Fmt <= 2 {
+				return cut(t.At+t.Hl-4, 4), true
 			}
 		}
 	case "ext-timestamp-dropped-c3":
 		// the writer of the RTMP 1.0 text: no extended timestamp in fmt-3 chunks (the specification models Adobe's behaviour)
 		for _, t := range toks {
 			if t.Ext >= 0 && t.Fmt == 3 {
-				return cut(t.At+t.Hl-4, 4)
+				return cut(t.At+t.Hl-4, 4), true
 			}
 		}
 	case "ext-timestamp-added":
 		// four extra bytes after a header whose timestamp field is not 0xFFFFFF
 		for _, t := range toks {
 			if t.Ext < 0 && t.Fmt == 0 && t.Tsf >= 0 {
-				return ins(t.At+t.Hl, byte(t.Tsf>>24), byte(t.Tsf>>16), byte(t.Tsf>>8), byte(t.Tsf))
+				return ins(t.At+t.Hl, byte(t.Tsf>>24), byte(t.Tsf>>16), byte(t.Tsf>>8), byte(t.Tsf)), true
 			}
 		}
 	case "timestamp-little-endian":
 		for _, t := range toks {
-			if t.Fmt == 0 && t.Tsf>>16 != t.Tsf&0xff {
+			if t.Fmt <= 2 && t.Tsf>>16 != t.Tsf&0xff {
 				o := append([]byte(nil), wire...)
 				p := t.At + t.Bl
 				o[p], o[p+2] = o[p+2], o[p]
-				return o
+				return o, true
 			}
 		}
 	case "wrong-chunk-cut":
@@ -56,13 +57,13 @@ func doctor(s session, wire []byte) []byte {
 			if t.Fmt == 3 && t.Off > 0 && t.Pay >= 1 && t.Hl == 1 && k > 0 {
 				o := append([]byte(nil), wire...)
 				o[t.At], o[t.At+1] = o[t.At+1], o[t.At]
-				return o
+				return o, true
 			}
 		}
 	case "continuation-header-dropped":
 		for _, t := range toks {
 			if t.Fmt == 3 && t.Off > 0 {
-				return cut(t.At, t.Hl)
+				return cut(t.At, t.Hl), true
 			}
 		}
 	case "stream-id-big-endian":
@@ -71,12 +72,11 @@ func doctor(s session, wire []byte) []byte {
 				o := append([]byte(nil), wire...)
 				p := t.At + t.Bl + 7
 				o[p], o[p+1], o[p+2], o[p+3] = o[p+3], o[p+2], o[p+1], o[p]
-				return o
+				return o, true
 			}
 		}
 	default:
-		rp.Bug("unknown doctoring %q", s.Doctor)
+		rp.Bug("unknown doctoring %q", what)
 	}
-	rp.Bug("doctor %s: session %s offers no chunk to apply it to", s.Doctor, s.Name)
-	return nil
+	return nil, false
 }
